@@ -40,7 +40,8 @@ AOL_RULE = ("aol profile: histories of blocks over 4 funded accounts plus key-le
 DID_RULE = ("did profile: 5 DIDs x 4 secp256k1 keys; documents in 13 shapes (key under authentication by reference / dedicated, only "
             "under assertionMethod, only as verification method, Ed25519 type, rich document — controller list naming the DID itself "
             "and/or another registered DID, 1-12 services with repeating ids —, malformed ids/base58/relationships, no authentication, "
-            "further keys under capabilityInvocation / capabilityDelegation / keyAgreement only); a DID named as controller signs "
+            "further keys under capabilityInvocation / capabilityDelegation / keyAgreement only, two method ids that differ only in the letter "
+            "case of the fragment); a DID named as controller signs "
             "updates with its own key, method id and sequence; keys listed without control sign under their own method id; creates on a "
             "tombstone signed by the last key over the tombstone's sequence; create/update(rotation)/deactivate with real signatures, wrong sequences, signatures over other "
             "content, tampered/empty signatures, did field != document id, empty-id and missing documents, verbatim replays through "
@@ -102,7 +103,7 @@ VALID_RULE = ("valid profile (boundary-exhaustive, not random): every field of t
               "character, while the other fields hold valid values; addresses: valid, empty, blank, upper-case, padded, truncated, "
               "other prefix, 1/32/255/256-byte; DIDs of 31/32/44/45 characters, non-base58 characters, wrong method; documents with "
               "every verification-method-id suffix shape, key types, base58 keys, missing methods/authentication, contexts, "
-              "controllers, services; plus pairs of off-limit fields. Each case: real ValidateBasic (+GetSigners when accepted) vs model. "
+              "controllers, services (whitespace-only, one-character, very long and odd ids, types and endpoints), relationship entries with neither id nor method; plus pairs of off-limit fields. Each case: real ValidateBasic (+GetSigners when accepted) vs model. "
               "non-trivial = distinct case; thorough adds 4000 random field combinations")
 prop(id="C16", vfile="Properties/C16.v",
      runs=lambda tier, seed: [dict(profile="valid", seed=seed, n=_sizes(tier, 1, 2)),
@@ -144,7 +145,8 @@ BURN_RULE = ("burn profile: blocks in which the burn address (and, as controls, 
              "block, two denominations, amounts 0/1/dust/huge), by MsgMultiSend (one input; outputs to the burn address and to an ordinary "
              "account, also not adding up or without outputs), by MsgCreateVestingAccount at the burn address (delayed, end time before/"
              "after later blocks, then topped up) and as MsgExec inner sends, interleaved with AOL traffic and fee payments; 12% of the chains "
-             "carry 24 further denominations of which 17-24 reach the burn address within one block (one send or one per denomination); "
+             "carry 24 further denominations of which 17-24 reach the burn address within one block (one send or one per denomination), 18% an "
+             "IBC voucher denomination (ibc/<hash>) and one more token that reach it now and then; "
              "in 30% of the histories coins are sent to the module accounts (burn, fee collector, mint) before the first burn; after every "
              "block the monitor reads, on the implementation alone, the spendable/locked/total balance of the burn address, the supply of "
              "every denomination, all other balances touched only by the burn, and runs the registered x/crisis invariants; the B lines "
@@ -266,7 +268,9 @@ prop(id="C09", vfile="Properties/C09.v",
 
 
 UPGRADE_RULE = ("upgrade profile: a chain populated by the aol / pnft / did generators; in a random block the plan of the last entry of app.Upgrades "
-                "is scheduled for the next height (AOL states always hold a topic of one name under three owners, two of them with writers; in a third of the aol / did histories: the plan of an earlier entry this binary also has a "
+                "is scheduled for the next height (AOL states always hold a topic of one name under three owners, two of them with writers; PNFT "
+                "states hold names with surrounding whitespace, a token that has moved away from its creator and a denom that has moved away "
+                "from its creator; in a third of the aol / did histories: the plan of an earlier entry this binary also has a "
                 "handler for and can load the disk of — v2.2.0 —, after the stores that entry adds have been emptied and their modules removed "
                 "from the recorded version map, as on a chain that skipped releases); before scheduling, the recorded versions of the custom "
                 "modules are set to the baseline of the previous releases (all 1), so that a version step without a migration halts the "
@@ -300,7 +304,8 @@ SIGN_RULE = ("sign profile (by shape; thorough adds 600 random messages): every 
              "protobuf bytes) while every other parameter is equal must not share their sign bytes; collisions are classified by the pair "
              "of kinds or, within a kind, by whether the two messages become equal after the two known JSON normalisations; only messages that pass "
              "ValidateBasic take part (each kind is also offered with every field emptied in turn, with every field changed in turn to another "
-             "admissible value of the same length, with neighbouring fields exchanged, and twice in one transaction as [a,b], [c,b], [b,a]); what a "
+             "admissible value of the same length, with neighbouring fields exchanged, with every address also in upper-case bech32, byte fields next "
+             "to their base64 / hex text, and twice in one transaction as [a,b], [c,b], [b,a]); what a "
              "message returned as its sign bytes must not change when a later message's are computed, and computing a transaction's sign "
              "bytes twice must give the same bytes (C14-signbytes-not-stable). aol profile: about 4% of the otherwise "
              "acceptable transactions carry signatures that are not over them (one byte flipped, or made over the same messages with another "
